@@ -294,7 +294,7 @@ def run(ctx):
         float_set_size=len(F),
         failures=failures[:20],
     )
-    ctx.need(len(observed) >= 0.98 * len(cases), "only %d of %d cases observed" % (len(observed), len(cases)))
+    ctx.need(len(observed) >= 0.98 * len({c.key for c in cases}), "only %d of %d cases observed" % (len(observed), len(cases)))
 
 
 def reg_cmp(ctx, c, why):
